@@ -21,7 +21,7 @@ UNIVERSES = {
     "halfmult": (("H", 0.5, 1.0, 0.0), ("F3", 0.5, 0.0, 0.5)),
 }
 FEES = [(0.0, 0.0), (1.0, 1.0 / 64), (1.0, 0.0), (0.0, 1.0 / 64), (2.0, 1.0 / 128), (0.0, 0.0002)]
-BASE_QUOTES = [(100.0, 100.0), (100.0, 104.0), (92.0, 96.0), (112.0, 112.0)]
+BASE_QUOTES = [(100.0, 100.0), (100.0, 104.0), (92.0, 96.0), (112.0, 112.0), (48.0, 52.0)]
 TRADE_SIZES = [1.0, -1.0, 2.0, -2.0]
 REBALANCES = [("weight", (0.5, 0.25)), ("weight", (-0.5, 0.0)), ("nr-contracts", (1.0, -1.0))]
 PALETTES = [(1.0, 65536.0), (0.5, 32768.0), (2.0, 131072.0), (1.375, 100000.0)]
